@@ -39,12 +39,12 @@ def check_c12(tier, replay=None):
             if tier == 'quick' and len(steps) == 2 and (steps[0]['dir'] == 'd2' or obj['seed'] not in (0, rnd)):
                 return      # quick: two-step histories for two of the seeds, single runs for all of them
             hists.append({'hid': len(hists) + 1, 'seed': obj['seed'], 'steps': steps})
-        res = tlc.run('StoneRuns', dict(spec='Spec', constants={'Rows': nrows, 'SpecSets': 2,
+        res = tlc.run('StoneRuns', dict(spec='Spec', constants={'Rows': nrows, 'SpecSets': 3,
                                                                'Seeds': '{%s}' % ', '.join(map(str, seeds)),
                                                                'Shard': 0, 'NShards': 1, 'EmitVectors': True},
                                        invariants=['TypeOK'], constraints=['Emit']), workers=1, on_vec=on)
         rep.add_tlc('StoneRuns', {'states': res['states'], 'distinct': res['distinct'], 'depth': res['depth'],
-                                  'violated': res['violated']}, {'Rows': nrows, 'SpecSets': 2, 'Seeds': seeds})
+                                  'violated': res['violated']}, {'Rows': nrows, 'SpecSets': 3, 'Seeds': seeds})
     # execute every history in its own process
     events = []
     failed = []
@@ -106,7 +106,7 @@ def check_c12(tier, replay=None):
     rep.add_judged(agg)
     rep.exhaustive = True
     rep.coverage_extra['rule'] = ('every history of StoneRuns: hash seed in %s x {fresh process, after the same backend on the other spec set, '
-                                  'after another backend on the same spec set} x two output directories x 17 backend rows x 2 spec sets (one with '
+                                  'after another backend on the same spec set} x two output directories x 17 backend rows x 3 spec sets (the third compiled with a route whitelist over cyclic annotated types; one with '
                                   'two omitted-caller classes on one union and struct, custom attrs, cross-namespace imports, a routes-only '
                                   'namespace); each history runs in its own process with PYTHONHASHSEED set; one digest per run over relative '
                                   'paths and bytes; the log is validated by StoneRunsTrace (memo[input] = digest)' % seeds)
